@@ -43,6 +43,11 @@ def sum_free_members(m, st, ins, args):
 
 def sum_ip4(m, st, ins, args):
     m.obs.append(('ip4-call', tuple(args), ins.loc, st.frames[-1][0]))
+    err = ('i', m.prog.macros.get('URI_ERROR_SYNTAX', 1))
+    if args[1] == ('i', 0) or args[2] == ('i', 0):
+        # essential checks of the recogniser: first == NULL, or afterLast <= first with a null end (flat address model:
+        # the null pointer compares below every position) - rejected before anything is read or written
+        return err
     for a in args[1:]:
         if a[0] not in ('p', 'pp', 'e', 'pin') and a != SAFE:
             raise Imprecise('uriParseIpFourAddress on %r at %s' % (a, fmt_loc(ins.loc)))
